@@ -9,9 +9,9 @@ namespace hx {
 
 // per-run machine / knob configuration drawn from the tape (swarm)
 inline void draw_runtime_config(Desc& d, int maxP = 6) {
-    static const int Ps[] = {1, 2, 3, 4, 6, 8};
+    static const int Ps[] = {1, 2, 3, 4, 6, 8, 12, 16};
     int n = 0;
-    while (n < 6 && Ps[n] <= maxP) ++n;
+    while (n < 8 && Ps[n] <= maxP) ++n;
     sim::g_cfg.P = Ps[sim::draw(n, "P")];
     static const int knobs[] = {-1, 0, 1, 3};
     sim::g_cfg.spin_knob = knobs[sim::draw(4, "spin_knob")];
